@@ -46,6 +46,11 @@ def impl(case):
         d = ds.pop(0) if ds else 0
         if d == 0:
             return (404, {}, b'not found')
+        if case.get('encoding') == 'gzip':
+            # the server compresses the transfer (Content-Encoding: gzip), as most web servers and CDNs do: the body the
+            # client has to store is the decoded one
+            import gzip
+            return (200, {'Content-Encoding': 'gzip'}, gzip.compress(bodies[d]))
         return (200, {}, bodies[d])
 
     def sum_cb(request):
@@ -63,6 +68,8 @@ def impl(case):
         tail = {'name': '  data.bin\n', 'bare': '', 'bare_nl': '\n', 'bare_crlf': '\r\n'}[
             case.get('sumfmt') or ('name' if case.get('with_name', True) else 'bare')]
         return (200, {}, md5[s] + tail)
+    if case.get('server'):
+        return _impl_server(case, bodies, md5, data_cb, sum_cb, log)
     with C.scratch_dir() as d:
         path = d / 'data.bin'
         if case['prior'] is not None:
@@ -105,9 +112,93 @@ def impl(case):
                 md5={str(k): v for k, v in md5.items()})
 
 
+def _impl_server(case, bodies, md5, data_cb, sum_cb, log):
+    """The same scripted server behaviours served by a real HTTP server on the loopback interface (the `responses` mock
+    hands the client an already decoded stream, so a compressed transfer cannot be told from a plain one there)."""
+    import threading
+    import requests
+    from http.server import BaseHTTPRequestHandler, ThreadingHTTPServer
+    from phylib.io import datasets as DS
+    from phylib.utils import event as EV
+    head = case.get('head', 'none')
+
+    class H(BaseHTTPRequestHandler):
+        protocol_version = 'HTTP/1.1'
+
+        def log_message(self, *a):  # noqa
+            pass
+
+        def _send(self, status, headers, body, with_body=True):
+            if isinstance(body, str):
+                body = body.encode()
+            self.send_response(status)
+            for k, v in headers.items():
+                self.send_header(k, v)
+            if 'Content-Length' not in headers:
+                self.send_header('Content-Length', str(len(body)))
+            self.end_headers()
+            if with_body:
+                self.wfile.write(body)
+
+        def do_GET(self):  # noqa
+            if self.path.endswith('.md5'):
+                self._send(*sum_cb(None))
+            else:
+                self._send(*data_cb(None))
+
+        def do_HEAD(self):  # noqa
+            log.append('head')
+            if head in ('none', '403', '501'):
+                self._send(int(head) if head != 'none' else 405, {}, b'', with_body=False)
+                return
+            n = len(bodies[1])
+            hdr = {'ok': {'Content-Length': str(n)}, 'ok_nolen': {'Content-Length': '0'},
+                   'short_len': {'Content-Length': str(n // 3)}, 'long_len': {'Content-Length': str(n * 5)}}[head]
+            self._send(200, hdr, b'', with_body=False)
+
+    try:
+        srv = ThreadingHTTPServer(('127.0.0.1', 0), H)
+    except OSError as e:          # no loopback interface in this sandbox: not a statement about the code
+        return dict(skipped='loopback unavailable: %s' % e)
+    th = threading.Thread(target=srv.serve_forever, daemon=True)
+    th.start()
+    url = 'http://127.0.0.1:%d/data.bin' % srv.server_address[1]
+    try:
+        with C.scratch_dir() as d:
+            path = d / 'data.bin'
+            if case['prior'] is not None:
+                path.write_bytes(bodies[case['prior']])
+            EV.reset()
+            try:
+                ret = DS.download_file(url, str(path) if case.get('pathkind') == 'str' else path)
+                result = 'skipped' if ret is not None else 'done'
+                if ret is not None and str(ret) != str(path):
+                    result = 'returned:%r' % (ret,)
+            except requests.exceptions.HTTPError:
+                result = 'http_error'
+            except RuntimeError:
+                result = 'mismatch'
+            EV.reset()
+            content = path.read_bytes() if path.exists() else None
+    finally:
+        srv.shutdown()
+        srv.server_close()
+    tok = None
+    if content is not None:
+        tok = [k for k, v in bodies.items() if v == content]
+        tok = tok[0] if tok else -1
+    n_head = log.count('head')
+    log2 = [x for x in log if x != 'head']
+    return dict(result=result, file=tok, log=log2, n_head=n_head,
+                file_md5=hashlib.md5(content).hexdigest() if content is not None else None,
+                md5={str(k): v for k, v in md5.items()})
+
+
 def judge(case, impl_res, ans):
     if 'err' in ans:
         return 'MACHINERY: driver error %s' % ans['err']
+    if 'ok' in impl_res and impl_res['ok'].get('skipped'):
+        return None
     m = ans['ok']
     if 'raised' in impl_res:
         return 'SPEC: real code raised %s (%s) at %s (neither HTTPError nor RuntimeError)' % (
@@ -147,9 +238,13 @@ def nontrivial(case):
 
 
 def tally(rep, case, impl_res, ans):
+    if 'ok' in impl_res and impl_res['ok'].get('skipped'):
+        rep.count('skipped:' + impl_res['ok']['skipped'][:40])
+        return
     if 'ok' in impl_res:
         rep.count('result:' + impl_res['ok']['result'])
         rep.count('data_requests:%d' % impl_res['ok']['log'].count('data'))
+    rep.count('transfer_encoding:%s%s' % (case.get('encoding', 'identity'), ' over a loopback HTTP server' if case.get('server') else ' (in-process mock)'))
     rep.count('size_probe(HEAD):%s' % case.get('head', 'none'))
     rep.count('output_path:%s' % case.get('pathkind', 'path'))
     rep.count('checksum_file_format:%s' % (case.get('sumfmt') or ('name' if case.get('with_name', True) else 'bare')))
@@ -187,7 +282,13 @@ def gen(tier, rng):
                         k += 1
                         yield dict(p=PID, prior=prior, ds=list(ds), ss=list(ss), head=HEADS[k % 7],
                                    pathkind=['path', 'str'][(k // 7) % 2], sumfmt=['name', 'bare', 'bare_nl', 'name', 'bare_crlf', 'latin1_name'][(k // 3) % 6],
-                                   wrongfmt=['hex', 'nonhex'][(k // 5) % 2])
+                                   wrongfmt=['hex', 'nonhex'][(k // 5) % 2],
+                                   encoding=['identity', 'identity', 'gzip'][(k // 2) % 3])
+                        if k % 18 == 4:
+                            # the same behaviours over a real loopback HTTP connection, half of them gzip-encoded
+                            yield dict(p=PID, prior=prior, ds=list(ds), ss=list(ss), head=['none', 'ok', '403'][k % 3],
+                                       server=True, encoding=['gzip', 'identity'][(k // 18) % 2],
+                                       sumfmt=['name', 'bare_nl'][(k // 36) % 2])
                         if not q and ld <= 3:
                             yield dict(p=PID, prior=prior, ds=list(ds), ss=list(ss), head=HEADS[(k + 3) % 7])
     for body in ('empty', 'one', 'big'):
